@@ -46,6 +46,8 @@ static uint8_t     A8, P8, B8[8];
 static uint16_t    A16, P16, W16[4];
 static uint32_t    A32, P32, N32, R32, W32;
 static uint32_t    CsdoCobTx, CsdoCobRx; static uint8_t CsdoNode;
+static uint8_t     DomData[20]; static CO_OBJ_DOM DomObj;
+static CO_NODE_SPEC NcSpec;
 
 #define NC_KEY_A8   CO_KEY(0x2100, 0, CO_OBJ___APRW)
 #define NC_KEY_A16  CO_KEY(0x2101, 0, CO_OBJ___APRW)
@@ -61,9 +63,10 @@ static void nc_defaults(void)
     NC.node_id = 1; NC.freq = 1000; NC.tmr_n = NC_TMR; NC.sdo_srv = 1;
 }
 
-static void nc_build(void)
+/* nc_prepare(): memory, dictionary and snapshot regions, everything before CONodeInit; nc_start(): CONodeInit (+ start) */
+static void nc_prepare(void)
 {
-    OdB b; CO_NODE_SPEC spec; int i, k;
+    OdB b; int i, k;
     w_reset(NC.freq);
     memset(&Node, 0, sizeof Node); memset(TMem, 0, sizeof TMem); memset(SdoBuf, 0, sizeof SdoBuf); ErrReg = 0;
     memset(Hbc, 0, sizeof Hbc); memset(Hist, 0, sizeof Hist); HistNum = 0;
@@ -134,19 +137,19 @@ static void nc_build(void)
     for (i = 0; i < 8; i++) od_add(&b, CO_KEY(0x2113, 1 + i, CO_OBJ____PRW), CO_TUNSIGNED8, (CO_DATA)&B8[i]);
     for (i = 0; i < 4; i++) od_add(&b, CO_KEY(0x2114, 1 + i, CO_OBJ____PRW), CO_TUNSIGNED16, (CO_DATA)&W16[i]);
     od_add(&b, CO_KEY(0x2115, 0, CO_OBJ_D_____ | CO_OBJ____PRW), CO_TUNSIGNED32, (CO_DATA)0xD1D2D3D4u);
+    for (i = 0; i < 20; i++) DomData[i] = (uint8_t)(0x60 + i);
+    DomObj.Offset = 0; DomObj.Size = 20; DomObj.Start = DomData;
+    od_add(&b, CO_KEY(0x2130, 0, CO_OBJ_____RW), CO_TDOMAIN, (CO_DATA)&DomObj);
     od_add(&b, CO_KEY(0x2120, 0, CO_OBJ_____RW), CO_TUNSIGNED32, (CO_DATA)&N32);
     od_add(&b, CO_KEY(0x2121, 0, CO_OBJ____PR_), CO_TUNSIGNED32, (CO_DATA)&R32);
     od_add(&b, CO_KEY(0x2122, 0, CO_OBJ____P_W), CO_TUNSIGNED32, (CO_DATA)&W32);
-    spec.NodeId = NC.node_id; spec.Baudrate = 250000; spec.Dict = OD; spec.DictLen = NC_OD_MAX; spec.EmcyCode = NC.emcy ? EmcyTbl : 0;
-    spec.TmrMem = TMem; spec.TmrNum = (uint16_t)NC.tmr_n; spec.TmrFreq = NC.freq; spec.Drv = &W_IfDrv; spec.SdoBuf = SdoBuf;
-    CONodeInit(&Node, &spec);
-    if (!NC.no_start) CONodeStart(&Node);
-    if (NC.operational) CONmtSetMode(&Node.Nmt, CO_OPERATIONAL);
+    NcSpec.NodeId = NC.node_id; NcSpec.Baudrate = 250000; NcSpec.Dict = OD; NcSpec.DictLen = NC_OD_MAX; NcSpec.EmcyCode = NC.emcy ? EmcyTbl : 0;
+    NcSpec.TmrMem = TMem; NcSpec.TmrNum = (uint16_t)NC.tmr_n; NcSpec.TmrFreq = NC.freq; NcSpec.Drv = &W_IfDrv; NcSpec.SdoBuf = SdoBuf;
     W_REG(Node); W_REG(OD); W_REG(ErrReg); W_REG(SdoBuf); W_REG(TMem); W_REG(HbTime); W_REG(HbcNum); W_REG(Hbc);
     W_REG(SyncId); W_REG(SyncCycle); W_REG(EmcyId); W_REG(HistNum); W_REG(Hist);
     W_REG(RpCob); W_REG(TpCob); W_REG(RpMap); W_REG(TpMap); W_REG(RpType); W_REG(TpType); W_REG(RpNum); W_REG(TpNum); W_REG(TpInh); W_REG(TpEvt);
     W_REG(A8); W_REG(P8); W_REG(B8); W_REG(A16); W_REG(P16); W_REG(W16); W_REG(A32); W_REG(P32); W_REG(N32); W_REG(R32); W_REG(W32);
-    W_REG(CsdoCobTx); W_REG(CsdoCobRx); W_REG(CsdoNode);
+    W_REG(CsdoCobTx); W_REG(CsdoCobRx); W_REG(CsdoNode); W_REG(DomData); W_REG(DomObj);
     for (i = 0; i < CO_SSDO_N; i++) w_nohash_range(&Node.Sdo[i].Frm, sizeof Node.Sdo[i].Frm);
     /* these harnesses only use expedited transfers: the server is idle between steps and the multiplexer / abort
      * override latched from the last request are overwritten by the next one before they are read */
@@ -155,6 +158,15 @@ static void nc_build(void)
     for (i = 0; i < CO_CSDO_N; i++) w_nohash_range(&Node.CSdo[i].Frm, sizeof Node.CSdo[i].Frm);
 #endif
 }
+
+static void nc_start(void)
+{
+    CONodeInit(&Node, &NcSpec);
+    if (!NC.no_start) CONodeStart(&Node);
+    if (NC.operational) CONmtSetMode(&Node.Nmt, CO_OPERATIONAL);
+}
+
+static void nc_build(void) { nc_prepare(); nc_start(); }
 
 /* ---- helpers ---- */
 static void nc_nmt(uint8_t cs, uint8_t target) { uint8_t d[2] = { cs, target }; w_rx(&Node, 0x000, 2, d); }
